@@ -91,3 +91,71 @@ def load_seeded():
         props = meta.get("checked_by") or [meta["property"]]
         MUTANTS.append(dict(id="seeded:" + os.path.basename(d), props=props, patch=p,
                             expect=meta.get("expect_rule", [""]), tier=meta.get("tier", "quick")))
+
+# ---- C02 -------------------------------------------------------------------------------------------
+M("C02.and_get_right_first", "C02", "core/src/props.rs",
+  "self.left().get(key).or_else(|| self.right().get(key))",
+  "self.right().get(key).or_else(|| self.left().get(key))", "C02.R2.get")
+M("C02.slice_ignores_break", "C02", "core/src/props.rs",
+  """        for p in self {
+            p.for_each(&mut for_each)?;
+        }""",
+  """        for p in self {
+            let _ = p.for_each(&mut for_each);
+        }""", "C02.R1")
+M("C02.and_is_unique", "C02", "core/src/props.rs",
+  """        self.left().get(key).or_else(|| self.right().get(key))
+    }
+}""",
+  """        self.left().get(key).or_else(|| self.right().get(key))
+    }
+
+    fn is_unique(&self) -> bool {
+        self.left().is_unique() && self.right().is_unique()
+    }
+}""", "C02.R4")
+M("C02.span_inner_first", "C02", "src/span.rs",
+  """        for_each(KEY_EVT_KIND.to_str(), Kind::Span.to_value())?;
+        for_each(KEY_SPAN_NAME.to_str(), self.name.to_value())?;
+
+        self.props.for_each(&mut for_each)
+    }""",
+  """        self.props.for_each(&mut for_each)?;
+
+        for_each(KEY_EVT_KIND.to_str(), Kind::Span.to_value())?;
+        for_each(KEY_SPAN_NAME.to_str(), self.name.to_value())
+    }""", "C02.S4")
+M("C02.dedup_last_wins", "C02", "core/src/props.rs",
+  "                seen.entry(key).or_insert(value);",
+  "                seen.insert(key, value);", "C02.R5")
+M("C02.dedup_fast_path_unguarded", "C02", "core/src/props.rs",
+  "            if self.0.is_unique() {\n                return self.0.for_each(for_each);",
+  "            if !self.0.is_unique() {\n                return self.0.for_each(for_each);", "C02.R5")
+M("C02.macro_get_binary_search(reverse of fix 6d4280d)", "C02", "src/macro_hooks.rs",
+  """        self.0
+            .iter()
+            .find(|(k, v)| v.is_some() && *k == key)
+            .and_then(|(_, v)| v.as_ref().map(|v| v.by_ref()))""",
+  """        self.0
+            .binary_search_by(|(k, _)| k.cmp(&key))
+            .ok()
+            .and_then(|i| self.0[i].1.as_ref().map(|v| v.by_ref()))""", "C02.R2.get")
+M("C02.metric_swallows_break", "C02", "src/metric.rs",
+  "        for_each(KEY_METRIC_AGG.to_str(), self.agg.to_value())?;",
+  "        let _ = for_each(KEY_METRIC_AGG.to_str(), self.agg.to_value());", "C02.R1")
+M("C02.dispatch_get_wrong_sibling", "C02", "core/src/props.rs",
+  """    fn dispatch_is_unique(&self) -> bool {
+        self.is_unique()
+    }""",
+  """    fn dispatch_is_unique(&self) -> bool {
+        true
+    }""", "C02.S2")
+M("C02.default_get_last_wins", "C02", "core/src/props.rs",
+  """                value = Some(v);
+
+                ControlFlow::Break(())
+            } else {""",
+  """                value = Some(v);
+
+                ControlFlow::Continue(())
+            } else {""", "C02.R3")
